@@ -22,6 +22,58 @@ def sh(cmd, cwd=None, timeout=1800):
     return r.returncode, r.stdout
 
 
+def scratch_eval(wt, sub, name=None):
+    """evaluate a round-2 seed (out/<ID>_<n>, build.sh not self-toggling) entirely in its own worktree: our check runs with
+    VERIF_REPO=<worktree> (evidence and replays of /repo are not touched).  Only for domains without generated Lean parts."""
+    pid = sub.split("_")[0]
+    name = name or sub
+    src = os.path.join(wt, "out", sub)
+    patch = os.path.join(src, "patch.diff")
+    res = {"property": pid, "seed_dir": src, "mode": "scratch worktree (VERIF_REPO)"}
+    sh("git checkout -- rtrlib third-party", cwd=wt)
+    rc_o, out_o = sh("sh %s" % os.path.join(src, "build.sh"), cwd=wt)
+    res["demo_without_patch_rc"] = rc_o
+    rc, out = sh("git apply %s" % patch, cwd=wt)
+    if rc != 0:
+        print("patch does not apply:", out)
+        return 1
+    try:
+        rc, out = sh("cmake --build _build 2>&1 | tail -3; ctest --test-dir _build -E 'test_live_validation|test_dynamic_groups' 2>&1 | tail -4", cwd=wt)
+        res["suite_with_patch"] = "100% tests passed" in out
+        rc_p, out_p = sh("sh %s" % os.path.join(src, "build.sh"), cwd=wt)
+        res["demo_with_patch_rc"] = rc_p
+        res["confirmed"] = bool(res["suite_with_patch"] and rc_p != 0 and rc_o == 0)
+        env = "VERIF_REPO=%s " % wt
+        rc, out = sh(env + "./check %s --tier quick" % pid, cwd=VERIF, timeout=3600)
+        res["check_rc"] = rc
+        res["check_lines"] = [l for l in out.splitlines() if l.startswith("VIOLATION") or l.startswith("KNOWN-FINDING")]
+        res["detected"] = any(l.startswith("VIOLATION") for l in out.splitlines())
+        for l in res["check_lines"]:
+            if l.startswith("VIOLATION") and "replay=" in l:
+                p = l.split("replay=")[1].split()[0]
+                if os.path.exists(p):
+                    res.setdefault("replay_heads", []).append(open(p).read()[:600])
+    finally:
+        sh("git checkout -- rtrlib third-party", cwd=wt)
+    dst = os.path.join(VERIF, "seeded", name)
+    os.makedirs(dst, exist_ok=True)
+    for f in os.listdir(src):
+        if os.path.isfile(os.path.join(src, f)) and os.path.getsize(os.path.join(src, f)) < 200000:
+            shutil.copy(os.path.join(src, f), os.path.join(dst, f))
+    meta = {}
+    mp = os.path.join(src, "meta.json")
+    if os.path.exists(mp):
+        try:
+            meta = json.load(open(mp))
+        except Exception:
+            meta = {"raw": open(mp).read()[:2000]}
+    meta["evaluation"] = res
+    with open(os.path.join(dst, "meta.json"), "w") as f:
+        json.dump(meta, f, indent=1)
+    print(name, json.dumps({k: res.get(k) for k in ("confirmed", "detected", "check_rc", "check_lines")}))
+    return 0
+
+
 def recheck(name):
     """re-run our check against a stored seed (seeded/<name>/patch.diff) and update its evaluation"""
     dst = os.path.join(VERIF, "seeded", name)
@@ -60,6 +112,8 @@ def recheck(name):
 
 
 def main():
+    if sys.argv[1] == "--scratch":
+        return scratch_eval(sys.argv[2], sys.argv[3], sys.argv[4] if len(sys.argv) > 4 else None)
     if sys.argv[1] == "--recheck":
         rc = 0
         for n in sys.argv[2:]:
